@@ -21,7 +21,7 @@ from vlib import api, lbytes
 from vlib.api import H, cover
 from vlib.lift import b, t
 
-from props.c18 import (L, LA, LH, all_latin1, conc_len, fix, run_channel, split_cases)
+from props.c18 import (L, LA, LH, all_latin1, conc_len, fix, fresh_name_cache, run_channel, split_cases)
 
 PROPERTY = "C19"
 LEVEL = "model_checking"
@@ -61,7 +61,10 @@ OUTSIDE = ["the h11 differential of the property text (symbolic execution throug
 ASSUMPTIONS = ["LBytes/LBuf reproduce bytes/bytearray semantics (vlib.lbytes.selftest on every run); lifted and "
                "real code agree on the concrete vectors below",
                "the reference framer ref_http is itself checked on RFC-derived concrete cases in selftest()",
-               "a transport delivers nothing after loseConnection()"]
+               "a transport delivers nothing after loseConnection()",
+               "the process-global header-name cache starts empty at every harness run; k_name, names_channel and "
+               "the 'byte before the colon' combination use the same name twice (second call / second connection) "
+               "so that the cached path is exercised with invalid names"]
 EXPLANATION = ("lifted real request-line / header / framing code against a reference framer written from "
                "RFC 9112; framing-header combination case-split, digits / bytes symbolic")
 
@@ -319,10 +322,21 @@ def _req_eq(g, e):
     return True
 
 
-def _agree(stream, prefix=True):
+def _agree(stream, prefix=True, again=False):
     """run the channel on the stream (one delivery) and compare with the reference; then the same for
     the stream cut right after the first request (the request must be handed over as soon as its
-    last byte is there)"""
+    last byte is there).  again=True: the same stream is then presented on a second connection of the
+    same process (the header-name cache is process-global and has seen every name of the first
+    connection by now) and must be treated exactly as the first time"""
+    fresh_name_cache()
+    if not _agree1(stream, prefix):
+        return False
+    if again:
+        return _agree1(stream, False)
+    return True
+
+
+def _agree1(stream, prefix):
     exp_reqs, exp_out, exp_closed, ends = ref_http(stream)
     got_reqs, got_out, got_closed, _ = run_channel([stream])
     api.obs((got_reqs, got_out, got_closed))
@@ -395,13 +409,20 @@ def k_name(nm: str) -> bool:
     pre: len(nm) <= B['nm'] and all_latin1(nm)
     post: _
     """
+    fresh_name_cache()
     nm = fix(nm, conc_len(nm, 4))
     try:
         got = t(LH._nameEncoder.encode(b(nm)))
     except LH.InvalidHeaderName:
         got = None
-    api.obs(got)
+    try:
+        again = t(LH._nameEncoder.encode(b(nm)))      # second use: the cache has seen the name
+    except LH.InvalidHeaderName:
+        again = None
+    api.obs((got, again))
     cover()
+    if (got is None) != (again is None) or (got is not None and got != again):
+        return False
     if not is_token(nm):
         return got is None
     # field names are case-insensitive: the canonical form may only change letter case
@@ -517,7 +538,7 @@ def framing(combo: int, cl: str, x: str, bd: str) -> bool:
         payload = sz + "\r\n" + bd + _SMUGGLED[:17] + "\r\n" + "0\r\n\r\n"
     else:
         payload = bd + _SMUGGLED
-    return _agree(head + payload + _SECOND)
+    return _agree(head + payload + _SECOND, again=(combo == 15))
 
 
 def names_channel(nm: str, vc: str) -> bool:
@@ -526,7 +547,7 @@ def names_channel(nm: str, vc: str) -> bool:
     post: _
     """
     stream = "GET /a HTTP/1.1\r\nX" + fix(nm, 2) + "Y: v" + fix(vc, 1) + "w\r\n\r\n" + _SECOND
-    return _agree(stream)
+    return _agree(stream, again=True)
 
 
 HARNESSES = [
